@@ -54,6 +54,9 @@ func ModulesAttrs() (*ugo.ModuleMap, map[string]ugo.Object) {
 		"f":  &ugo.Function{Name: "f", Value: func(args ...ugo.Object) (ugo.Object, error) { return ugo.Int(len(args)), nil }},
 	}
 	mm.AddBuiltinModule("bm", attrs)
+	// a Go module that is not a BuiltinModule: a custom Importable handing out a host object type that implements
+	// Copier ("values of imported builtin (Go) modules are private to each VM")
+	mm.Add("cm", cellModule{&Cell{N: 7}})
 	mm.AddBuiltinModule("strings", ugostrings.Module)
 	mm.AddBuiltinModule("fmt", ugofmt.Module)
 	mm.AddBuiltinModule("json", ugojson.Module)
@@ -174,6 +177,13 @@ for i := 0; i < 3; i++ { fs = append(fs, func(x) { return x + i + G }) }
 r := []
 for f in fs { r = append(r, f(1)) }
 return r`},
+	{"host object of a custom importable module is mutated", `
+global (G, L)
+c := import("cm")
+before := c.n
+c.n = c.n + G
+f := func() { return import("cm").n }
+return [before, c.n, f()]`},
 	{"builtin module values are mutated", `
 global (G, L)
 bm := import("bm")
@@ -336,3 +346,26 @@ func Programs(thorough bool) []Prog {
 	c11.JumpPrograms(false, add("C11 jump grammar", 53))
 	return out
 }
+
+// Cell is a mutable host object type outside ugo's own containers; it implements ugo.Copier.
+type Cell struct {
+	ugo.ObjectImpl
+	N int64
+}
+
+func (c *Cell) TypeName() string { return "cell" }
+func (c *Cell) String() string   { return fmt.Sprintf("cell(%d)", c.N) }
+func (c *Cell) Copy() ugo.Object { return &Cell{N: c.N} }
+func (c *Cell) IndexGet(ugo.Object) (ugo.Object, error) {
+	return ugo.Int(c.N), nil
+}
+func (c *Cell) IndexSet(_, v ugo.Object) error {
+	if i, ok := v.(ugo.Int); ok {
+		c.N = int64(i)
+	}
+	return nil
+}
+
+type cellModule struct{ cell *Cell }
+
+func (m cellModule) Import(string) (any, error) { return m.cell, nil }
